@@ -1,7 +1,13 @@
 """C11 - whitespace-only source edits in offset mode keep every node on its text."""
 from contracts import k_offset
 from pyvc.contract import verify_all
+from pyvc import native
 
 
 def run(rep, tier, seed):
     verify_all(rep, k_offset.specs('C11') + k_offset.specs_text('C11'))
+    sec = native.run('b_raw', 'main', {'props': ['C11'], 'tier': tier, 'seed': seed, 'ops': ['offset']})
+    sec['native_entry'] = ('b_raw', 'replay')
+    rep.bounded(sec)
+    rep.remainder = ('that each node is visited exactly once by the two walks of put_src(action="offset") (worklist '
+                     'completeness): bounded sweep over every inter-token gap of the corpus only')
